@@ -238,8 +238,21 @@ func typeNew(r *rand.Rand, o Opts, depth int) *abs.TD {
 			ft := Type(r, o, depth-1, false)
 			gn := fmt.Sprintf("F%d", i)
 			f := abs.FD{I: fieldIdx[perm[i]], N: gn, GN: gn, Enc: true, T: ft}
-			if r.Intn(12) == 0 {
-				f.N = fmt.Sprintf("json_%d", i)
+			if r.Intn(6) == 0 {
+				// json tag forms: the descriptor name is the name part when non-empty, else the Go name
+				switch r.Intn(5) {
+				case 0:
+					f.N = fmt.Sprintf("json_%d", i)
+				case 1:
+					f.N = fmt.Sprintf("j%d", i)
+					f.JT = f.N + ",omitempty"
+				case 2:
+					f.JT = ",omitempty"
+				case 3:
+					f.N, f.JT = "-", "-"
+				case 4:
+					f.N = fmt.Sprintf("na\u00efve %d", i)
+				}
 			}
 			if o.Options {
 				b := Base(ft)
